@@ -9,8 +9,8 @@ package lockedfile
 // file description behind the *os.File f (0 unlocked, 1 shared, 2 exclusive),
 // fdClosed[f], fdPath[f]; fsBytes/fsSize are the byte-level file contents.
 
-//@ property C06: (*Mutex).Lock, Lock$1, openFile, closeFile, OpenFile, Open, Create, Edit, (*File).Close, lockedfile/internal/filelock/lock, lockedfile/internal/filelock/unlock, lockedfile/internal/filelock/Lock, lockedfile/internal/filelock/RLock, lockedfile/internal/filelock/Unlock, lockedfile/internal/filelock/(lockType).String
-//@ property C07: openFile, closeFile, OpenFile, Edit, (*File).Close, Transform, Transform$1, Read, Write
+//@ property C06: (*Mutex).Lock, Lock$1, openFile, closeFile, OpenFile, Open, Create, Edit, (*File).Close, lockedfile/internal/filelock/lock, lockedfile/internal/filelock/unlock, lockedfile/internal/filelock/Lock, lockedfile/internal/filelock/RLock, lockedfile/internal/filelock/Unlock, lockedfile/internal/filelock/(lockType).String, Read, Write, Transform, Transform$1
+//@ property C07: openFile, closeFile, OpenFile, Edit, (*File).Close, Transform, Transform$1, Read, Write, Open, Create
 
 // lock mode demanded by the open flags: write access means exclusive
 //@ pure func wantMode(flag int) int = (flag & 3 == 1 || flag & 3 == 2) ? 2 : 1
